@@ -150,6 +150,7 @@ int main(int argc, char** argv)
   };
 
   std::string line;
+  bool skip_until_reset = false;
   while (std::getline(in, line)) {
     cur_line = line;
     std::istringstream is(line);
@@ -158,7 +159,11 @@ int main(int argc, char** argv)
     if (op.empty()) {
       continue;
     }
+    if (skip_until_reset && op != "reset") {
+      continue;
+    }
     if (op == "reset") {
+      skip_until_reset = false;
       std::string mode, extra;
       is >> max >> mode >> extra;
       unwind_probe = extra == "unwind";
@@ -393,10 +398,16 @@ int main(int argc, char** argv)
         sb->get_sandbox_impl()->reported_total = max + 1;
         c.str("out", "ok");
       } catch (const std::runtime_error&) {
+        // (a library that refuses this is inside the Contract; the state of the sandbox object is
+        // unknown then, so this history ends here)
         c.str("out", "abort");
+        skip_until_reset = true;
       }
       c.raw("own", own_projection(*sb, *ow));
       out.put(c);
+      if (skip_until_reset) {
+        continue;
+      }
     }
     if (ow && other && xtoken != 0 && (op == "oget" || op == "lookupt" || op == "olookup")) {
       // the same token value presented to the OTHER sandbox
